@@ -180,6 +180,9 @@ def run(ctx):
                            'builtin sha1 hash with one round is used so that thousands of logins are cheap']
     nw = ctx.workers
     ctx.pmap(fuzz_worker, [(ctx.seed * 77 + k, ctx.budget(12, 200)) for k in range(nw)])
+    # real sockets, real handshake: nothing sent in clear text is acted on after STARTTLS
+    from . import c09tls
+    ctx.pmap(c09tls.worker, [(ctx.seed * 91 + k, ctx.budget(3, 30)) for k in range(nw)])
     try:
         from . import c19
         ctx.pmap(c19.auth_worker, [(ctx.seed * 31 + k, ctx.budget(10, 150)) for k in range(nw)])
@@ -189,7 +192,7 @@ def run(ctx):
 
 def replay(case):
     case = case.get('case', case)
-    if case.get('scenario') in ('fuzz', 'maildir-authz'):
+    if case.get('scenario') in ('fuzz', 'maildir-authz', 'starttls-injection'):
         print('case:', case)
         return 0
     if case.get('scenario', '').startswith('sieve'):
